@@ -10,12 +10,14 @@ from . import utils
 
 @dispatcher.register_for('AND')
 def AND(*args):
-    args = utils.iflatten(args)
+    args = utils.ichecked(args)
     return all(args)
 
 
 @dispatcher.register_for('IF')
 def IF(test, then, otherwise):
+    if isinstance(test, error.XLError):
+        return test
     return then if test else otherwise
 
 
@@ -31,19 +33,21 @@ def IFNA(value, value_if_na):
 
 @dispatcher.register_for('NOT')
 def NOT(boolean):
+    if isinstance(boolean, error.XLError):
+        return boolean
     return not boolean
 
 
 @dispatcher.register_for('XOR')
 def XOR(*args):
-    args = utils.iflatten(args)
+    args = utils.ichecked(args)
     result = sum(bool(a) for a in args)
     return bool(result & 1)
 
 
 @dispatcher.register_for('OR')
 def OR(*args):
-    args = utils.iflatten(args)
+    args = utils.ichecked(args)
     return any(args)
 
 
@@ -64,6 +68,8 @@ def SWITCH(target_value, *args):
 @dispatcher.register_for('IFS')
 def IFS(*args):
     for pair in zip(args[::2], args[1::2]):
+        if isinstance(pair[0], error.XLError):
+            return pair[0]
         if pair[0]:
             return pair[1]
     return error.NOT_AVAILABLE
